@@ -8,6 +8,7 @@ package connectors
 // for trace validation and for attributing a loss to a named deviation.
 
 import (
+	"encoding/base64"
 	"fmt"
 	"math/rand"
 	"os"
@@ -44,6 +45,7 @@ type c02Case struct {
 	NoFinalNL bool   `json:"nofinalnl"` // the files end without a newline
 	Max       int    `json:"max"`       // grep only: stop after so many selected lines per file (the reader is cancelled, the rest of
 	                                    // the file is never queued; the session must still end)
+	Prelude   bool   `json:"prelude"`   // before the session: another session of the same process is cut off in the middle of a big file
 	DrainUs   int    `json:"drainus"`   // after the behaviour: a consumer that needs this many microseconds per message (the
 	                                    // readers stay ahead of it, their queues are full when they reach the end of the file)
 }
@@ -117,6 +119,24 @@ func c02Run(c c02Case, base string) (res c02Result) {
 		}
 	}
 	u, _ := user.New("vuser", "harness")
+	if c.Prelude {
+		// an aborted session leaves its readers in the middle of a line; whatever they held (pooled buffers, limiter slots)
+		// must not show up in the session that follows
+		pf := filepath.Join(dir, "prelude.txt")
+		var pb strings.Builder
+		for i := 0; i < 1500; i++ {
+			fmt.Fprintf(&pb, "PRELUDE-STALE line %d %s\n", i, strings.Repeat("p", i%70))
+		}
+		os.WriteFile(pf, []byte(pb.String()), 0644)
+		ph := serverHandlers.NewServerHandler(u, make(chan struct{}, 2), make(chan struct{}, 2))
+		go ph.Write([]byte(fmt.Sprintf("protocol 4.1 base64 %s;", base64.StdEncoding.EncodeToString([]byte("cat:quiet=true "+pf+" regex:noop ")))))
+		pbuf := make([]byte, 4096)
+		for i := 0; i < 1+rng.Intn(40); i++ {
+			ph.Read(pbuf)
+		}
+		ph.Shutdown()
+		time.Sleep(time.Duration(1+rng.Intn(20)) * time.Millisecond)
+	}
 	limit := c.CatLimit
 	if limit <= 0 {
 		limit = 2
